@@ -31,4 +31,7 @@ func init() {
 		rule{name: "P-exec", run: rulePExec},
 		rule{name: "TERM", run: ruleTermExec},
 	)
+	register("C09", "P-dec", nil, rule{name: "P-dec", run: rulePDec}, rule{name: "ACC", run: ruleACC})
+	register("C14", "P-insp", nil, rule{name: "P-insp", run: rulePInsp})
+	register("C16", "P-json", nil, rule{name: "P-json", run: rulePJSON}, rule{name: "FLOAT", run: ruleFloat})
 }
